@@ -80,6 +80,65 @@ class ConstEval:
             return UNKNOWN
         return set(vals)
 
+    def _comp(self, generators, emit):
+        """Evaluate a comprehension with known iterables; ``emit()`` is called
+        for every binding of the targets.  Returns False if something is unknown."""
+        saved = dict(self.env)
+        ok = [True]
+        budget = [self.max_iter]
+
+        def rec(i):
+            if not ok[0]:
+                return
+            if i == len(generators):
+                emit()
+                return
+            gen = generators[i]
+            seq = self.ev(gen.iter)
+            if isinstance(seq, dict):
+                seq = list(seq)
+            if _unk(seq) or not isinstance(seq, (list, tuple, set, frozenset, str)):
+                ok[0] = False
+                return
+            for item in (sorted(seq) if isinstance(seq, (set, frozenset)) else seq):
+                budget[0] -= 1
+                if budget[0] < 0:
+                    ok[0] = False
+                    return
+                self._store(gen.target, item)
+                conds = [self.ev(c) for c in gen.ifs]
+                if _unk(*conds):
+                    ok[0] = False
+                    return
+                if all(conds):
+                    rec(i + 1)
+        rec(0)
+        self.env = saved
+        return ok[0]
+
+    def ev_ListComp(self, node):
+        res = []
+        return res if self._comp(node.generators, lambda: res.append(self.ev(node.elt))) else UNKNOWN
+
+    def ev_GeneratorExp(self, node):
+        return self.ev_ListComp(node)
+
+    def ev_SetComp(self, node):
+        res = []
+        if not self._comp(node.generators, lambda: res.append(self.ev(node.elt))) or _unk(*res):
+            return UNKNOWN
+        return set(res)
+
+    def ev_DictComp(self, node):
+        res = {}
+
+        def emit():
+            k = self.ev(node.key)
+            res[k if not _unk(k) else UNKNOWN] = self.ev(node.value)
+        if not self._comp(node.generators, emit) or any(_unk(k) for k in res):
+            return UNKNOWN
+        return res
+
     def ev_UnaryOp(self, node):
         val = self.ev(node.operand)
         if _unk(val):
